@@ -224,5 +224,53 @@ def _hazard(tier):
     return _fmt.script_cases(_options(False), sanitize=False, max_statements=2, comments=25)
 
 
+# ------------------------------------------------------------------------------------------------------------
+# written-literals leg: the expectation comes from the literals as WRITTEN by the generator, not from the
+# library's own lexing of the input (a lexer change that moves a literal's borders would otherwise move the
+# expectation with it).  Literals with a type prefix (N'..', E'..', X'..', B'..', U&'..', _utf8'..') keep the prefix.
+PREFIXES = ['', '', '', 'N', 'n', 'E', 'e', 'X', 'x', 'B', 'b', 'U&', '_utf8', '_latin1', 'R', 'q']
+_wl_body = st.text(alphabet='abcXYZ 0123456789;,()-*/"`$#@!%_é:?[]\n\t', max_size=16)
+WL_TEMPLATES = ['select {0} from t', 'select {0}, {1} from t where c = {2}', 'insert into t values ({0}, 1, {1})', 'select f({0},{1}) x, {2} as y',
+                'update t set a = {0} where b in ({1}, {2})', 'select {0}\n  , {1}\nfrom t -- c\nwhere x like {2}', 'select {0};\nselect {1}, {2}']
+
+
+@st.composite
+def _written_literals(draw):
+    n = draw(st.integers(2, 12))        # validate_options: truncate_strings > 1
+    mark = draw(st.sampled_from([None, None, '[...]', '…', '..', '~', '']))
+    lits = []
+    for _ in range(3):
+        body = draw(st.one_of(_wl_body, st.integers(max(0, n - 2), n + 2).flatmap(lambda k: st.text(alphabet='abc d', min_size=k, max_size=k))))
+        lits.append((draw(st.sampled_from(PREFIXES)), body))
+    return {'n': n, 'mark': mark, 'lits': lits, 'tpl': draw(st.sampled_from(WL_TEMPLATES))}
+
+
+def check_written(case):
+    n, mark, lits = case['n'], case['mark'], case['lits']
+    opts = {'truncate_strings': n}
+    if mark is not None:
+        opts['truncate_char'] = mark
+    m = '[...]' if mark is None else mark
+    text = case['tpl'].format(*["%s'%s'" % l for l in lits])
+    want = case['tpl'].format(*["%s'%s'" % (p, b if len(b) <= n else b[:n] + m) for p, b in lits])
+    res = Result(key=[text, n, mark])
+    try:
+        out = sqlparse.format(text, **opts)
+    except Exception as e:
+        res.failures.append(exc_failure('raises', e))
+        return res
+    if out != want:
+        used = [l for l in lits if "%s'%s'" % l in text]
+        res.fail('written-literal', 'prefixed' if any(p for p, b in used if len(b) > n) else 'plain',
+                 'format(%r, truncate_strings=%d%s) = %r, expected %r' % (text[:160], n, '' if mark is None else ', truncate_char=%r' % mark, out[:160], want[:160]))
+    cut = [l for l in lits if "%s'%s'" % l in text and len(l[1]) > n]
+    near = [l for l in lits if "%s'%s'" % l in text and len(l[1]) in (n, n - 1, n + 1)]
+    res.nontrivial = bool(cut) and bool(near or any(p for p, b in cut))
+    res.labels = ['cut'] * bool(cut) + ['boundary-length'] * bool(near) + ['prefix:' + p for p, b in cut if p]
+    res.sample = {'text': text[:200], 'options': opts, 'output': out[:200]}
+    return res
+
+
 LEGS = [Leg('main', check=check, strategy=_main, examples={'quick': 6000, 'thorough': 120000}),
-        Leg('hazard', check=check, strategy=_hazard, examples={'quick': 1500, 'thorough': 25000}, hazard_leg=True)]
+        Leg('hazard', check=check, strategy=_hazard, examples={'quick': 1500, 'thorough': 25000}, hazard_leg=True),
+        Leg('written-literals', check=check_written, strategy=lambda tier: _written_literals(), examples={'quick': 4000, 'thorough': 100000})]
